@@ -4,6 +4,7 @@ import (
 	"fmt"
 	"go/token"
 	"go/types"
+	"strings"
 
 	"golang.org/x/tools/go/ssa"
 )
@@ -99,6 +100,12 @@ func sameElem(a, b ssa.Value) bool {
 			}
 		}
 		return true
+	}
+	// m[k] read twice
+	la, ok1 := a.(*ssa.Lookup)
+	lb, ok2 := b.(*ssa.Lookup)
+	if ok1 && ok2 && !la.CommaOk && !lb.CommaOk {
+		return (la.X == lb.X || sameObject(la.X, lb.X)) && (la.Index == lb.Index || sameElem(la.Index, lb.Index))
 	}
 	return false
 }
@@ -317,6 +324,42 @@ func init() {
 			}
 			fns := p.FuncsInPkg("pkg/sorter")
 			r.Analysed = len(fns)
+			// projected keys: what slice.CopyValuesFromIndices filled / slice.IndicesToValues returned is
+			// already in key order; key positions of the full row do not apply to it any more
+			projectors, err := p.MustFuncs("pkg/slice.CopyValuesFromIndices", "pkg/slice.IndicesToValues")
+			if err != nil {
+				return err
+			}
+			projFields := map[*types.Var]bool{}
+			projVals := map[ssa.Value]bool{}
+			for _, fn := range fns {
+				for _, c := range callsTo(fn, projectors) {
+					args := c.Common().Args
+					if calleeFunc(c).Name() == "CopyValuesFromIndices" && len(args) >= 2 {
+						d := stripConv(args[1])
+						projVals[d] = true
+						if u, ok := d.(*ssa.UnOp); ok && u.Op == token.MUL {
+							if fa, ok := u.X.(*ssa.FieldAddr); ok {
+								projFields[structField(fa.X.Type(), fa.Field)] = true
+							}
+						}
+					} else if v, ok := c.(*ssa.Call); ok {
+						projVals[v] = true
+					}
+				}
+			}
+			isProjected := func(v ssa.Value) bool {
+				v = stripConv(v)
+				if projVals[v] {
+					return true
+				}
+				if u, ok := v.(*ssa.UnOp); ok && u.Op == token.MUL {
+					if fa, ok := u.X.(*ssa.FieldAddr); ok && projFields[structField(fa.X.Type(), fa.Field)] {
+						return true
+					}
+				}
+				return false
+			}
 			for _, fn := range fns {
 				// rows after removal
 				var rem []ssa.Value
@@ -324,9 +367,6 @@ func init() {
 					if v, ok := c.(*ssa.Call); ok {
 						rem = append(rem, v)
 					}
-				}
-				if len(rem) == 0 {
-					continue
 				}
 				removed := forward(rem, fwdOpts{throughCalls: true, noBinOp: true, throughIndex: false})
 				// the remover's own argument is not "removed" before the call; forward() only follows results
@@ -367,13 +407,17 @@ func init() {
 						return
 					}
 					args := c.Common().Args
-					var rowArg, vecArg ssa.Value
-					for _, a := range args {
+					var rowArg, vecArg, projArg ssa.Value
+					isProjector := calleeFunc(c) != nil && projectors[calleeFunc(c)]
+					for ai, a := range args {
 						if removed[a] {
 							rowArg = a
 						}
 						if isPre(a) {
 							vecArg = a
+						}
+						if isProjected(a) && isRowLike(a.Type()) && !(isProjector && ai != 0) {
+							projArg = a
 						}
 					}
 					if vecArg == nil {
@@ -394,6 +438,8 @@ func init() {
 					what := "pre-removal key positions are applied to a row that still has all its columns"
 					if rowArg != nil {
 						r.bad(key, p.Rel(c.Pos()), what, "the row argument has already passed column removal while the index vector still holds pre-removal positions")
+					} else if projArg != nil {
+						r.bad(key, p.Rel(c.Pos()), what, "the row argument is a key that was already extracted with these positions (filled by slice.CopyValuesFromIndices / IndicesToValues): applying the positions of the full row to it reads the wrong cells or runs past its end")
 					} else {
 						r.ok(key, p.Rel(c.Pos()), what)
 					}
@@ -682,58 +728,195 @@ func successEdgesFail(fn *ssa.Function, c *ssa.Call) []edge {
 func init() {
 	register(&Rule{
 		ID: "C19-f", Template: "typestate (use before initialisation of a comparison baseline)",
-		Doc: "No row is dropped because it equals a placeholder: in pkg/sorter every call of the duplicate-key test (pkIsDifferent(cur, prev)) is reachable only after the baseline `prev` was filled from an emitted row (copy(prev, …)) — the first row is never compared against the freshly made all-empty slice, which equals a legal key made of empty strings.",
+		Doc: "No row is dropped because it equals a placeholder: in pkg/sorter, where a key is compared for equality (slice.StringSliceEqual, directly or through a helper such as pkIsDifferent(cur, prev)) with a baseline that the same code refreshes with copy(baseline, …) — the 'previous key' of the duplicate filter, a local slice or a field of a filter object — the comparison is reachable only after the baseline was filled from a row, or under a 'have a previous row' flag (a local, a captured variable or a field) that is set only after such a fill. The first row is never compared against the freshly made all-empty slice, which equals a legal key made of empty strings.",
 		Min: 2,
 		Run: func(p *Program, r *RuleResult) error {
-			pkd, err := p.MustFuncs("pkg/sorter.pkIsDifferent")
+			eq, err := p.MustFuncs("pkg/slice.StringSliceEqual")
 			if err != nil {
+				return err
+			}
+			if _, err := p.SSAFunc("pkg/sorter.(*Sorter).SortedBlocks"); err != nil {
 				return err
 			}
 			fns := p.FuncsInPkg("pkg/sorter")
 			r.Analysed = len(fns)
-			for _, fn := range fns {
-				for _, c := range callsTo(fn, pkd) {
-					args := c.Common().Args
-					if len(args) < 2 {
-						continue
+			isCopyInto := func(in ssa.Instruction, dst ssa.Value) bool {
+				call, ok := in.(*ssa.Call)
+				if !ok {
+					return false
+				}
+				bi, ok := call.Call.Value.(*ssa.Builtin)
+				return ok && bi.Name() == "copy" && len(call.Call.Args) == 2 && sameObject(call.Call.Args[0], dst)
+			}
+			rootParam := func(fn *ssa.Function, v ssa.Value) int {
+				v = stripConv(v)
+				for i, prm := range fn.Params {
+					if ssa.Value(prm) == v {
+						return i
 					}
-					prev := args[1]
-					key := callKey(fn, c)
-					what := "duplicate-key test runs only after the baseline holds a real row's key"
-					// writes into prev: copy(prev, …)
-					writes := map[ssa.Instruction]bool{}
-					for _, b := range fn.Blocks {
-						for _, in := range b.Instrs {
-							call, ok := in.(*ssa.Call)
-							if !ok {
-								continue
-							}
-							if bi, ok := call.Call.Value.(*ssa.Builtin); ok && bi.Name() == "copy" && len(call.Call.Args) == 2 && sameObject(call.Call.Args[0], prev) {
-								writes[in] = true
+				}
+				return -1
+			}
+			type oblig struct {
+				fn   *ssa.Function
+				c    ssa.CallInstruction
+				prev ssa.Value
+			}
+			var obs []oblig
+			helpers := map[*ssa.Function]int{} // duplicate-test helper → index of its baseline parameter
+			for _, fn := range fns {
+				for _, c := range callsTo(fn, eq) {
+					for _, a := range c.Common().Args {
+						refreshed := false
+						for _, b := range fn.Blocks {
+							for _, in := range b.Instrs {
+								if isCopyInto(in, a) {
+									refreshed = true
+								}
 							}
 						}
-					}
-					// a "have a previous row" flag that only becomes true after the baseline was
-					// filled makes its true edge infeasible on paths that avoid the fill
-					cut := cutSet{}
-					for _, b := range fn.Blocks {
-						if len(b.Instrs) == 0 {
+						if !refreshed {
 							continue
 						}
-						if ifi, ok := b.Instrs[len(b.Instrs)-1].(*ssa.If); ok && flagTrueOnlyAfter(fn, ifi.Cond, writes) {
+						if k := rootParam(fn, a); k >= 0 {
+							helpers[fn] = k
+						} else {
+							obs = append(obs, oblig{fn, c, a})
+						}
+					}
+				}
+			}
+			for _, fn := range fns {
+				eachCall(fn, func(c ssa.CallInstruction) {
+					if sc := c.Common().StaticCallee(); sc != nil {
+						if k, ok := helpers[sc]; ok && k < len(c.Common().Args) {
+							obs = append(obs, oblig{fn, c, c.Common().Args[k]})
+						}
+					}
+				})
+			}
+			for _, o := range obs {
+				fn, c, prev := o.fn, o.c, o.prev
+				key := callKey(fn, c)
+				what := "duplicate-key test runs only after the baseline holds a real row's key"
+				// a filter method shared by k call sites stands for k duplicate tests
+				if k := staticCallSites(p, fn); k > 1 {
+					r.Shared += k - 1
+				}
+				writes := map[ssa.Instruction]bool{}
+				for _, b := range fn.Blocks {
+					for _, in := range b.Instrs {
+						if isCopyInto(in, prev) {
+							writes[in] = true
+						}
+					}
+				}
+				// a "have a previous row" flag that only becomes true after the baseline was
+				// filled makes its true edge infeasible on paths that avoid the fill
+				cut := cutSet{}
+				for _, b := range fn.Blocks {
+					if len(b.Instrs) == 0 {
+						continue
+					}
+					ifi, ok := b.Instrs[len(b.Instrs)-1].(*ssa.If)
+					if !ok {
+						continue
+					}
+					cond, neg := ifi.Cond, false
+					for {
+						if u, ok := cond.(*ssa.UnOp); ok && u.Op == token.NOT {
+							cond, neg = u.X, !neg
+							continue
+						}
+						break
+					}
+					if flagTrueOnlyAfter(fn, cond, writes) || fieldFlagTrueOnlyAfter(p, fn, cond, writes) {
+						if neg {
+							cut[edge{b, 1}] = true
+						} else {
 							cut[edge{b, 0}] = true
 						}
 					}
-					if path, reach := reachAfter(fn, nil, c, cut, writes); reach {
-						r.bad(key, p.Rel(c.Pos()), what, fmtPath("the first row is compared against the placeholder baseline (a key made of empty strings equals it and the row is dropped)", path))
-					} else {
-						r.ok(key, p.Rel(c.Pos()), what)
+				}
+				// one baseline for the whole output: it is not picked per row (a field of
+				// whichever run supplied the row, an element chosen by a varying index)
+				perRow := false
+				for x := range backward(pathOf(prev, nil).root, nil) {
+					switch y := x.(type) {
+					case *ssa.Phi:
+						if enclosingLoop(y.Block()) != nil || isLoopHeader(y.Block()) {
+							perRow = true
+						}
+					case *ssa.IndexAddr:
+						if _, isConst := constInt(y.Index); !isConst {
+							perRow = true
+						}
 					}
+				}
+				if perRow {
+					r.bad(key, p.Rel(c.Pos()), what, "the baseline of the duplicate test is selected per row (it belongs to the run the row came from): equal keys that arrive from different runs — two spill files, or a spill file and the rows still in memory — are never compared with each other")
+					continue
+				}
+				if path, reach := reachAfter(fn, nil, c, cut, writes); reach {
+					r.bad(key, p.Rel(c.Pos()), what, fmtPath("the first row is compared against the placeholder baseline (a key made of empty strings equals it and the row is dropped)", path))
+				} else {
+					r.ok(key, p.Rel(c.Pos()), what)
 				}
 			}
 			return nil
 		},
 	})
+}
+
+// fieldFlagTrueOnlyAfter: cond is a load of a bool field; every store of `true` into
+// that field anywhere in the package is in fn and cannot be reached from fn's entry
+// without passing one of `after`; the zero value (false) is what a new object has.
+func fieldFlagTrueOnlyAfter(p *Program, fn *ssa.Function, cond ssa.Value, after map[ssa.Instruction]bool) bool {
+	if len(after) == 0 {
+		return false
+	}
+	u, ok := cond.(*ssa.UnOp)
+	if !ok || u.Op != token.MUL {
+		return false
+	}
+	fa, ok := u.X.(*ssa.FieldAddr)
+	if !ok {
+		return false
+	}
+	fld := structField(fa.X.Type(), fa.Field)
+	if bt, ok := fld.Type().Underlying().(*types.Basic); !ok || bt.Kind() != types.Bool {
+		return false
+	}
+	sawTrue := false
+	for _, g := range p.FuncsInPkg(strings.TrimPrefix(fnPkgPath(fn), modPath+"/")) {
+		for _, b := range g.Blocks {
+			for _, in := range b.Instrs {
+				st, ok := in.(*ssa.Store)
+				if !ok {
+					continue
+				}
+				fa2, ok := st.Addr.(*ssa.FieldAddr)
+				if !ok || structField(fa2.X.Type(), fa2.Field) != fld {
+					continue
+				}
+				c, ok := st.Val.(*ssa.Const)
+				if !ok || c.Value == nil {
+					return false
+				}
+				if c.Value.String() != "true" {
+					continue
+				}
+				sawTrue = true
+				if g != fn {
+					return false
+				}
+				if _, reach := reachAfter(fn, nil, st, nil, after); reach {
+					return false
+				}
+			}
+		}
+	}
+	return sawTrue
 }
 
 // flagTrueOnlyAfter: cond is a bool built only from φs and constants, and every
@@ -804,4 +987,127 @@ func flagTrueOnlyAfter(fn *ssa.Function, cond ssa.Value, after map[ssa.Instructi
 		return false
 	}
 	return walk(cond) && sawTrue
+}
+
+func init() {
+	register(&Rule{
+		ID: "C19-i", Template: "T10 agreement (runs are sorted in the order the merge assumes)",
+		Doc: "A run is sorted by the comparator the merge uses: every sort of rows in pkg/sorter (sort.Slice / sort.SliceStable / sort.Sort / sort.Stable applied to a [][]string, directly or through a sort.Interface wrapper) decides its order by calling objects.StringSliceIsLess — the same function the k-way merge of SortedRows uses, and the []string twin of StrList.LessThan used by SortedBlocks (their agreement is C19-a). A run sorted by any other order (a joined string key, a locale compare, only the first key column) is merged as if it were sorted canonically: rows come out of order as soon as something spills, and the table identifier depends on the run size.",
+		Min: 1,
+		Run: func(p *Program, r *RuleResult) error {
+			canon, err := p.MustFuncs("pkg/objects.StringSliceIsLess")
+			if err != nil {
+				return err
+			}
+			if _, err := p.SSAFunc("pkg/sorter.SortRows"); err != nil {
+				return err
+			}
+			fns := p.FuncsInPkg("pkg/sorter")
+			r.Analysed = len(fns)
+			isRows := func(t types.Type) bool {
+				sl, ok := t.Underlying().(*types.Slice)
+				if !ok {
+					return false
+				}
+				in, ok := sl.Elem().Underlying().(*types.Slice)
+				if !ok {
+					return false
+				}
+				b, ok := in.Elem().Underlying().(*types.Basic)
+				return ok && b.Kind() == types.String
+			}
+			var reaches func(f *ssa.Function, depth int) bool
+			reaches = func(f *ssa.Function, depth int) bool {
+				if f == nil || len(f.Blocks) == 0 {
+					return false
+				}
+				found := false
+				eachCall(f, func(c ssa.CallInstruction) {
+					if cf := calleeFunc(c); cf != nil && canon[cf] {
+						found = true
+					} else if sc := c.Common().StaticCallee(); sc != nil && depth > 0 && isRepoPkgPath(fnPkgPath(sc)) && reaches(sc, depth-1) {
+						found = true
+					}
+				})
+				return found
+			}
+			n := 0
+			for _, fn := range fns {
+				eachCall(fn, func(c ssa.CallInstruction) {
+					f := calleeFunc(c)
+					if f == nil || f.Pkg() == nil || (f.Pkg().Path() != "sort" && f.Pkg().Path() != "slices") {
+						return
+					}
+					args := c.Common().Args
+					var less *ssa.Function
+					sortsRows := false
+					switch f.Name() {
+					case "Slice", "SliceStable", "SortFunc", "SortStableFunc":
+						if len(args) < 2 {
+							return
+						}
+						x := args[0]
+						if mi, ok := x.(*ssa.MakeInterface); ok {
+							x = mi.X
+						}
+						sortsRows = isRows(x.Type())
+						switch l := args[1].(type) {
+						case *ssa.MakeClosure:
+							less, _ = l.Fn.(*ssa.Function)
+						case *ssa.Function:
+							less = l
+						}
+					case "Sort", "Stable":
+						if len(args) < 1 {
+							return
+						}
+						mi, ok := args[0].(*ssa.MakeInterface)
+						if !ok {
+							return
+						}
+						t := mi.X.Type()
+						// a wrapper type that carries rows: one of its fields (or itself) is a [][]string
+						et := t
+						if pt, ok := et.Underlying().(*types.Pointer); ok {
+							et = pt.Elem()
+						}
+						if isRows(et) {
+							sortsRows = true
+						}
+						if st, ok := et.Underlying().(*types.Struct); ok {
+							for i := 0; i < st.NumFields(); i++ {
+								if isRows(st.Field(i).Type()) {
+									sortsRows = true
+								}
+							}
+						}
+						ms := p.SSA.MethodSets.MethodSet(t)
+						if sel := ms.Lookup(nil, "Less"); sel != nil {
+							less = p.SSA.MethodValue(sel)
+						} else if named, ok := et.(*types.Named); ok {
+							for i := 0; i < named.NumMethods(); i++ {
+								if named.Method(i).Name() == "Less" {
+									less = p.SSA.FuncValue(named.Method(i))
+								}
+							}
+						}
+					default:
+						return
+					}
+					if !sortsRows {
+						return
+					}
+					key := fmt.Sprintf("%s|sort-rows#%d", funcName(fn), n)
+					n++
+					what := "rows are sorted with the comparator the merge uses"
+					if less != nil && reaches(less, 2) {
+						r.ok(key, p.Rel(c.Pos()), what)
+					} else {
+						r.bad(key, p.Rel(c.Pos()), what, "the order of this sort is not decided by objects.StringSliceIsLess: a run sorted differently from what the k-way merge assumes comes out of order once something spills")
+					}
+				})
+			}
+			return nil
+		},
+	})
 }
